@@ -177,9 +177,29 @@ fn enum_conv(cmd: &Value) -> OpResult {
     Ok(out)
 }
 
+/// m.room.message contents given as JSON texts: which msgtype string the typed value reports and
+/// what it serializes back (the msgtype is a tagged-enum discriminator, not a plain string enum).
+fn msgtype_conv(cmd: &Value) -> OpResult {
+    use ruma_events::room::message::RoomMessageEventContent;
+    let mut out = vec![];
+    for t in cmd.get("texts").and_then(Value::as_array).ok_or("harness: texts")? {
+        let text = t.as_str().ok_or("harness: text")?;
+        out.push(match serde_json::from_str::<RoomMessageEventContent>(text) {
+            Err(e) => json!({"err": e.to_string()}),
+            Ok(c) => {
+                let reported = c.msgtype().to_owned();
+                let ser = serde_json::to_value(&c).map_err(|e| e.to_string())?;
+                json!({"ok": {"msgtype": reported, "serialized_msgtype": ser.get("msgtype").cloned().unwrap_or(Value::Null)}})
+            }
+        });
+    }
+    Ok(json!(out))
+}
+
 pub fn dispatch(op: &str, cmd: &Value) -> Option<OpResult> {
     Some(match op {
         "enum_conv" => enum_conv(cmd),
+        "msgtype_conv" => msgtype_conv(cmd),
         _ => return None,
     })
 }
